@@ -238,3 +238,55 @@ def install(lib):
 
 
 GROUP = "facade"
+
+
+# ---------------------------------------------------------------------------- resolution (C04)
+class Retrieve(Contract):
+    """retrieve_webentity / retrieve_prefix: with k the number of stem levels of the LRU
+    that are stored (follow_lru's contract), the answer is the webentity (resp. the
+    bytes) of the deepest of those k stem-prefixes that carries one, and the library's
+    own error is raised iff none of them does.  Nothing is written."""
+
+    def __init__(self, name):
+        self.qual = "Traph." + name
+        self.name = name
+
+    def setups(self, ex):
+        p, w, store, trie = base()
+        for ax in Tr.deep_axioms(p):
+            p.assume(ax)
+        t = mk_traph(p, trie)
+        lru = fresh("lru", BYTES)
+        p.assume(lru == PRE(QL))
+        snapshot_old(p)
+        yield p, t, [lru], {}, "any"
+
+    def check(self, ex, p0, res, tag):
+        for p1, kind, val in res:
+            k = p1.w.get("__follow_k")
+            if k is None:
+                ex.oblige(p1, "goes-through-follow_lru", False, None)
+                continue
+            w = TW(p1)
+            d = Tr.DEEP(k)
+            if kind == "raise":
+                if val[0] != "TraphException":
+                    ex.oblige(p1, "raises-only-the-library's-error(%s)" % val[0], False, val[1])
+                    continue
+                ex.oblige(p1, "fails=>no-stored-stem-prefix-carries-a-webentity", d == -1, val[1])
+            else:
+                ex.oblige(p1, "answers=>some-stored-stem-prefix-carries-a-webentity", d >= 0, None)
+                if self.name == "retrieve_webentity":
+                    ex.oblige(p1, "answer==webentity-of-the-deepest-such-prefix", Tr.enc_we(val) == w.f("we", Tr.wn(p1, d)), None)
+                else:
+                    ex.oblige(p1, "answer==bytes-of-the-deepest-such-prefix", to_z3(val) == PRE(d + 1), None)
+            for k_ in Tr.TKEYS:
+                if not p1.w[k_].eq(p0.w[k_]):
+                    ex.oblige(p1, "store-unchanged[%s]" % k_, p1.w[k_] == p0.w[k_], None)
+
+
+_install_f0 = install
+
+
+def install(lib):
+    return _install_f0(lib) + [Retrieve("retrieve_webentity"), Retrieve("retrieve_prefix")]
